@@ -151,6 +151,41 @@ def gen_cases(seed, n, n_files):
     return [gen_case(seed, i, n_files) for i in range(n)]
 
 
+EMPTY_CFG = {"dirs": None, "gdeny": None, "gpat": None}
+
+
+def gen_seq(seed: int, i: int, n_files: int):
+    """a history in ONE process for ONE project root: rule set A, then a fresh Orchestrator / Linter with rule set B, then with
+    no rules, then A again - through config dicts or through a .thailint.yaml rewritten between the runs.  Every step is an
+    ordinary case: expected = specification of the CURRENT rule set."""
+    r = rng_for(seed, PROP, "seq", i)
+    a = gen_case(seed, f"seqA{i}", n_files)
+    b = gen_case(seed, f"seqB{i}", n_files)
+    mode = r.choice(["seq-dict", "seq-file", "seq-linter"])
+    files = [f for f in a["files"] if f["rest"] not in (".thailint.yaml", ".thailint.json")]
+    if mode != "seq-dict":
+        files = files + [{"cwd": "", "rest": ".thailint.yaml", "relative": False}]
+    order = r.choice([["A", "B", "E", "A"], ["A", "B", "E", "A"], ["B", "E", "A", "B"], ["A", "E", "B", "A"]])
+    cfgs = {"A": a["cfg"], "B": b["cfg"], "E": EMPTY_CFG}
+    steps = [{"i": f"seq{i}.{k}{name}", "cfg": cfgs[name], "files": files, "via": mode,
+              "wrap": "file-placement" if mode != "seq-dict" else a.get("wrap")} for k, name in enumerate(order)]
+    return {"seq": steps}
+
+
+def flatten(items, impls):
+    """(cases, impls) with the steps of a history as consecutive ordinary cases"""
+    cs, ims = [], []
+    for it, im in zip(items, impls):
+        if "seq" in it:
+            for k, (st, o) in enumerate(zip(it["seq"], im["steps"])):
+                cs.append({**st, "history": {"seq": it["seq"][:k + 1]}})
+                ims.append(o)
+        else:
+            cs.append(it)
+            ims.append(im)
+    return cs, ims
+
+
 # ------------------------------------------------------------------ rendering
 def cfg_dict(cfg):
     def ditem(x):
@@ -291,8 +326,8 @@ def _make_tree(root: Path, case):
             p.write_text("x\n")
 
 
-def _run_api(case, root: Path):
-    orch = make_orchestrator(root, _wrapped(case))
+def _run_api(case, root: Path, orch=None):
+    orch = orch or make_orchestrator(root, _wrapped(case))
     home = os.getcwd()
     outs = []
     for f in case["files"]:
@@ -370,7 +405,33 @@ def _run_cli(case, root: Path, home: Path):
     return outs
 
 
+def _run_seq(item, root: Path):
+    import yaml
+    from harness.common import ensure_repo_on_path, install_failure_tap
+    ensure_repo_on_path()
+    install_failure_tap()
+    outs = []
+    for st in item["seq"]:
+        if st["via"] == "seq-dict":
+            orch = None                                   # a fresh Orchestrator(project_root=root, config=...)
+        else:
+            (root / ".thailint.yaml").write_text(yaml.safe_dump(_wrapped(st), sort_keys=False, allow_unicode=True))
+            if st["via"] == "seq-file":
+                from src.orchestrator.core import Orchestrator
+                orch = Orchestrator(project_root=root)    # loads ROOT/.thailint.yaml
+            else:
+                from src.api import Linter
+                orch = Linter(config_file=root / ".thailint.yaml", project_root=root).orchestrator
+        outs.append({"outcomes": _run_api(st, root, orch)})
+    return {"steps": outs}
+
+
 def run_impl(case):
+    if "seq" in case:
+        with scratch_dir("tv-c18-") as d:
+            root = d / "proj"
+            _make_tree(root, case["seq"][0])
+            return _run_seq(case, root)
     with scratch_dir("tv-c18-") as d:
         root = d / "proj"
         _make_tree(root, case)
@@ -479,6 +540,10 @@ def corpus_cases():
     out = []
     for p in sorted((VERIF / "corpus" / PROP).glob("*.json")):
         c = json.loads(p.read_text())
+        if "seq" in c:
+            out.append({"seq": [{"i": f"corpus:{p.stem}.{k}", "cfg": st["cfg"], "files": c["files"], "via": c.get("via", "seq-dict"),
+                                 "wrap": "file-placement"} for k, st in enumerate(c["seq"])]})
+            continue
         out.append(finish_case({"i": "corpus:" + p.stem, "cfg": c["cfg"], "files": c["files"], "via": c.get("via", "api"),
                                 "wrap": c.get("wrap", "file-placement")}))
     return out
@@ -494,7 +559,9 @@ def run(tier: str, seed: int, replay: str | None = None) -> int:
                 "absolute path or relative to a working directory, through Orchestrator.lint_file in-process and, for a fraction of "
                 "the rule sets, through the CLI (--rules, .thailint.yaml, --config json). One evaluation = one (rule set, file). "
                 "Non-trivial = the rule set is accepted and some directory rule contains the file or a global list is configured, or "
-                "the rule set is rejected; distinct = distinct (rule set, path, presentation)")
+                "the rule set is rejected; distinct = distinct (rule set, path, presentation). Besides, histories in one process for one "
+                "project root (rule set A, fresh Orchestrator/Linter with B, with no rules, A again; by config dict or by a .thailint.yaml "
+                "rewritten between the runs): every step must meet the specification of the CURRENT rule set")
     chk.trusted_base += [
         "the regex engine is an oracle: the model and every theorem are parametric in `matches`/`valid`; per case the harness tabulates "
         "re.compile(p) / re.compile(p, IGNORECASE).search(path) for the finite pattern x path set and hands the tables to the model",
@@ -510,11 +577,13 @@ def run(tier: str, seed: int, replay: str | None = None) -> int:
     chk.fingerprint_changed = mine_changed
     n_cfg = (300 if tier == "quick" else 3000) * scale
     n_files = 20 if tier == "quick" else 22
+    n_seq = (24 if tier == "quick" else 240) * scale
     if replay:
-        cases = [finish_case(json.loads(Path(replay).read_text())["violation"]["case"])]
+        rc = json.loads(Path(replay).read_text())["violation"]["case"]
+        items = [rc if "seq" in rc else finish_case(rc)]
     else:
-        cases = corpus_cases() + gen_cases(seed, n_cfg, n_files)
-    impls = pool_map(run_impl, cases, procs=8)
+        items = corpus_cases() + [gen_seq(seed, i, 12) for i in range(n_seq)] + gen_cases(seed, n_cfg, n_files)
+    cases, impls = flatten(items, pool_map(run_impl, items, procs=8))
     with scratch_dir("tv-c18-coq-") as wd:
         verdicts = None
         failed = getattr(chk, "build_result", None).failed if getattr(chk, "build_result", None) else {}
@@ -582,7 +651,7 @@ def run(tier: str, seed: int, replay: str | None = None) -> int:
             spec_ok, ideal_ok, cand = bool(bits[0]), bool(bits[1]), [bool(b) for b in bits[2:]]
             if spec_ok:
                 continue
-            one = {"i": case["i"], "cfg": cfg, "files": [f], "via": case["via"], "wrap": case.get("wrap")}
+            one = case.get("history") or {"i": case["i"], "cfg": cfg, "files": [f], "via": case["via"], "wrap": case.get("wrap")}
             info = {"reason": "reported violations differ from the allow/deny specification", "config": _wrapped(case),
                     "file": f, "impl": o, "case": one}
             if ref == 0:
